@@ -259,7 +259,7 @@ def open_model_check(pid, quick):
        pages lying about themselves or missing or doubled (the open ends, asks only for offsets inside the file, and a table it accepts is usable), and
        one pinned rule (the back-step without its clamp at 0) that TLC must refute"""
     out = dict(states=0, transitions=0, configs={}, pinned_rules_refuted={}); viol = []
-    cfgs = ['VFOpen_MC.cfg', 'VFOpen_MC_hdronly.cfg', 'VFOpen_MC_damage.cfg'] + ([] if quick else ['VFOpen_MC_3.cfg', 'VFOpen_MC_damage2.cfg'])
+    cfgs = ['VFOpen_MC.cfg', 'VFOpen_MC_hdronly.cfg', 'VFOpen_MC_hdronly3.cfg', 'VFOpen_MC_damage.cfg'] + ([] if quick else ['VFOpen_MC_3.cfg', 'VFOpen_MC_damage2.cfg'])
     for c in cfgs:
         r = vlib.run_tlc_cached('VFOpen_MC.tla', c, workers=8 if quick else 14, timeout=600 if quick else 3000, xmx='4g' if quick else '12g')
         out['configs'][c] = dict(ok=bool(r['ok']), states=r['distinct'], wall_s=round(r['wall'], 1)); out['states'] += r['distinct']; out['transitions'] += r['generated']
@@ -269,6 +269,8 @@ def open_model_check(pid, quick):
             else: raise SystemExit(f'TLC failed on {c}: ' + o[-800:])
     r = vlib.run_tlc('VFOpen_MC.tla', 'VFOpen_MC_pinned_clamp.cfg', workers=4, timeout=600)
     out['pinned_rules_refuted']['VFOpen_MC_pinned_clamp.cfg'] = bool(r['violated'])
+    r = vlib.run_tlc('VFOpen_MC.tla', 'VFOpen_MC_pinned_searchfrom.cfg', workers=4, timeout=600)      # the search for the end of a link started where _initial_pcmoffset stopped reading
+    out['pinned_rules_refuted']['VFOpen_MC_pinned_searchfrom.cfg'] = bool(r['violated'])
     return out, viol
 
 def read_model_check(pid, quick, which='seek'):
@@ -385,6 +387,7 @@ def check_c09(pid, tier, seed, replay=None):
             if r < 0.3: opt += ':ppp=' + ','.join(str(rng.choice([1,1,2,3,5])) for _ in range(rng.randint(1,3)))
             if rng.random() < 0.15: opt += f':mux={rng.choice([1,2])}'
             if rng.random() < 0.15: opt += ':hs=1'
+            if l == 3 and rng.random() < 0.5: opt += ':noaud=1'
             if l in (0,1,5,9,12) and rng.random() < 0.25: opt += f':g={rng.choice([1,777,100000])}' + ('' if 'ppp' in opt else ':ppp=2,3')
             toks.append(f'{l}{opt}')
         key = f'X{i}'
@@ -393,7 +396,7 @@ def check_c09(pid, tier, seed, replay=None):
         scs.append(fam_linear(key, name=f'chain{i}-{k}links', lens=(4096,) if i%3 else (1,333,100000)))
         # the same file through the integer reader (the packing of a call that crosses into a link with another channel count)
         if i % 2 == 0: scs.append(fam_linear(key, name=f'chain{i}-{k}links-int', lens=(4096,) if i%3 else (7,333,100000), intread=rng.choice([(2,1,0),(1,0,0),(2,0,1)])))
-    for f in ['B','C','D','E','I','J','N','P','Q','V','X','Y','ZC','ZD','ZF']:
+    for f in ['B','C','D','E','I','J','N','P','Q','V','X','Y','ZC','ZD','ZF','ZI','ZJ','ZK','ZM']:
         scs.append(fam_linear(f, name=f'chain-{f}'))
         scs.append(fam_linear(f, name=f'chain-{f}-int', intread=(2,1,0)))
     # file ids collide across scenarios only if they share a script: pin each generated file to its own id per bucket by unique ids modulo 40
